@@ -1,9 +1,12 @@
-(* C16: property theorems.  Statements only; every proof is `exact` of a lemma in Proofs/. *)
+(* C16 -- Mixed schedules are identical with and without numba
+   Property theorems only: each proof is one application of a lemma proved in Proofs/, followed by Print Assumptions. *)
 From Coq Require Import ZArith List Bool.
 From CS Require TabEq.
+From CS Require Import Actions NAdvance Multistage Exec Sched RunFacts Projections BasicInv MultistageRun TLBridge.
 Import ListNotations.
 Open Scope Z_scope.
 
+(* the tabulated planner never fails an assertion and every entry equals the memoised planner *)
 Module M_C16_table.
 Import TabEq.
 Theorem C16_table :
